@@ -140,6 +140,21 @@ Section Facts.
     max_iter o < min_iter o -> solve_t_M d o t s = (s, Raise ValueError).
   Proof. intros H. unfold Solver.solve_t_M. replace (max_iter o <? min_iter o) with true by lia. reflexivity. Qed.
 
+  (* a period that cannot accommodate the instance's lags / leads (fix for finding #2): IndexError, nothing changes.
+     Both spellings of t are covered: p is the normalised position of t. *)
+  Theorem infeasible_period_rejected d o t s p :
+    min_iter o <= max_iter o ->
+    py_pos (length (status s)) t = Some p ->
+    ((p < lags d)%nat \/ (length (status s) <= p + leads d)%nat) ->
+    solve_t_M d o t s = (s, Raise IndexError).
+  Proof.
+    intros Hmm Hp Hinf. unfold Solver.solve_t_M.
+    replace (max_iter o <? min_iter o) with false by lia. rewrite Hp.
+    replace (feasible d (length (status s)) p) with false; [reflexivity|].
+    unfold feasible. symmetry. apply andb_false_iff.
+    destruct Hinf as [H|H]; [left; apply Nat.leb_gt; exact H | right; apply Nat.ltb_ge; exact H].
+  Qed.
+
   Lemma loop_set_offset d o x t p : forall n k v cur lg,
     loop d (set_offset o x) t p n k v cur lg = loop d o t p n k v cur lg.
   Proof.
